@@ -760,6 +760,48 @@ func normalClosedForm(ctx *Ctx, r *Report, fn *ssa.Function, key string) {
 		}
 	}
 	r.check("S6", key, fn.Pos(), ok, "Normal ≡ (t1−t0)×(t2−t0) normalised (right-hand rule)."+detail)
+	if !strings.HasPrefix(key, "verifCtl") {
+		normalFromEdgeVectors(ctx, r, fn, key)
+	}
+}
+
+// normalFromEdgeVectors (S12, float-faithful): the identity of S6 holds in exact arithmetic; in
+// floating point a formula that multiplies raw vertex coordinates (e.g. the sum of the cross
+// products of consecutive vertices) loses the normal of a small triangle far from the origin to
+// cancellation - the products are of the size of the squared offset, their difference of the
+// size of the triangle's area. Decided on the operations the program performs: no
+// multiplication has a raw vertex coordinate as an operand; coordinates enter products only
+// through differences of two coordinates.
+func normalFromEdgeVectors(ctx *Ctx, r *Report, fn *ssa.Function, key string) {
+	ev := newEval(ctx)
+	ev.faithful = true
+	res, _ := ev.evalRoot(fn)
+	m := map[string]*Term{}
+	leafTerms("", res, m)
+	t := paramName(fn, 0)
+	re := regexp.MustCompile(`^` + regexp.QuoteMeta(t) + `\[\d\]\.[XYZ]$`)
+	raw := func(x *Term) bool {
+		if x.Op == "fneg" {
+			x = x.Args[0]
+		}
+		return x.Op == "a" && re.MatchString(x.S)
+	}
+	bad := ""
+	nMul := 0
+	for c, g := range m {
+		for _, mu := range findSub(g, func(x *Term) bool { return x.Op == "f*" }) {
+			nMul++
+			if (raw(mu.Args[0]) || raw(mu.Args[1])) && len(bad) < 200 {
+				bad += fmt.Sprintf(" component %s multiplies a raw vertex coordinate: %s;", c, shortKey(mu.Key(), 80))
+			}
+		}
+	}
+	if len(m) != 3 || nMul == 0 {
+		r.undecided("S12", key, fn.Pos(), fmt.Sprintf("%d components, %d multiplications seen", len(m), nMul))
+		return
+	}
+	r.check("S12", key+"|products-of-edge-vectors-only", fn.Pos(), bad == "", fmt.Sprintf("%d floating-point multiplications, none with a raw vertex coordinate as operand;%s", nMul, bad))
+	r.floor("S12", 1)
 }
 
 // checkTruncate: S7.
@@ -1008,7 +1050,7 @@ func ruleTextLoaderSplitsOnAnyWhitespace(ctx *Ctx, r *Report) {
 				return
 			}
 			g := c.Call.StaticCallee()
-			if g == nil || g.Pkg == nil || g.Pkg.Pkg.Path() != "strings" {
+			if g == nil || g.Pkg == nil || (g.Pkg.Pkg.Path() != "strings" && g.Pkg.Pkg.Path() != "bytes") {
 				return
 			}
 			n++
@@ -1021,19 +1063,19 @@ func ruleTextLoaderSplitsOnAnyWhitespace(ctx *Ctx, r *Report) {
 					continue
 				}
 				if strings.ContainsAny(constant.StringVal(k.Value), " \t") {
-					bad += fmt.Sprintf(" strings.%s(…, %s) at %s spells out one white-space character;", g.Name(), k.Value.ExactString(), ctx.pos(c.Pos()))
+					bad += fmt.Sprintf(" %s.%s(…, %s) at %s spells out one white-space character;", g.Pkg.Pkg.Name(), g.Name(), k.Value.ExactString(), ctx.pos(c.Pos()))
 				}
 			}
 		})
 	}
-	r.check("S11", "loadSTLAscii|tokens-are-separated-by-any-white-space", root.Pos(), usesFields && bad == "", fmt.Sprintf("%d calls of package strings; tokenised with strings.Fields: %v;%s", n, usesFields, bad))
+	r.check("S11", "loadSTLAscii|tokens-are-separated-by-any-white-space", root.Pos(), usesFields && bad == "", fmt.Sprintf("%d calls of packages strings/bytes; tokenised with Fields: %v;%s", n, usesFields, bad))
 	r.floor("S11", 1)
 }
 
 var (
-	reRecField  = regexp.MustCompile(`\.(Normal|Vertex[123])\[(\d+)\]\)$`)
-	reRecElem   = regexp.MustCompile(`sel:&o\d+\((\w+)\)\[(\d+)\]\[:\]\((\d+)\)\)$`)
-	reRecBytes  = regexp.MustCompile(`math\.Float32frombits\(call:\(encoding/binary\.littleEndian\)\.Uint32[^(]*\((?:[^,]*,)?slice:o\d+\[(\d+):(\d+)\]`)
+	reRecField = regexp.MustCompile(`\.(Normal|Vertex[123])\[(\d+)\]\)$`)
+	reRecElem  = regexp.MustCompile(`sel:&o\d+\((\w+)\)\[(\d+)\]\[:\]\((\d+)\)\)$`)
+	reRecBytes = regexp.MustCompile(`math\.Float32frombits\(call:\(encoding/binary\.littleEndian\)\.Uint32[^(]*\((?:[^,]*,)?slice:o\d+\[(\d+):(\d+)\]`)
 )
 
 // recordByteOffset: the byte offset inside the record read from the file of the float32 that the
